@@ -135,6 +135,26 @@ def schema_xml(xs, extra_top="", extra_inside=""):
     return x + "</sbe:messageSchema>\n"
 
 
+def split_files(xs, k, include_first):
+    """the same schema with the public types from index k on moved into an included file (the set of definitions
+    sbeppc sees is unchanged; include_first puts the <xi:include> before the local <types> block)"""
+    raw = getattr(xs, "raw", None) or {}
+    a = attrs(xs, [("package", xs.package), ("id", xs.id), ("version", xs.version),
+                   ("byteOrder", "bigEndian" if xs.big_endian else "littleEndian"),
+                   ("headerType", xs.header if xs.header != "messageHeader" else None)])
+    inc = '<xi:include xmlns:xi="http://www.w3.org/2001/XInclude" href="inc.xml"/>\n'
+    local = "<types>\n" + "".join(el_xml(t) for t in xs.types[:k]) + "</types>\n"
+    x = '<?xml version="1.0" encoding="UTF-8"?>\n<sbe:messageSchema xmlns:sbe="http://fixprotocol.io/2016/sbe"%s>\n' % a
+    x += (inc + local) if include_first else (local + inc)
+    for m in xs.messages:
+        x += "<sbe:message%s>\n" % attrs(m, [("name", m.name), ("id", m.id), ("blockLength", m.block_length)])
+        x += level_xml(m, "  ")
+        x += "</sbe:message>\n"
+    x += "</sbe:messageSchema>\n"
+    frag = '<?xml version="1.0" encoding="UTF-8"?>\n<types>\n' + "".join(el_xml(t) for t in xs.types[k:]) + "</types>\n"
+    return {"schema.xml": x, "inc.xml": frag}
+
+
 # ----------------------------------------------------------------------
 # token stream for the extracted model (see ocaml/drv_c08.ml)
 # ----------------------------------------------------------------------
